@@ -84,6 +84,29 @@ def run(ctx, programs, label="eval_tie"):
         todo.append((p, d))
     mouts = core.run_stateless(core.RUNNER, "eval", [d["prog"] for _, d in todo])
     louts = core.run_stateless(core.RUNNER, "evallex", [d["prog"] for _, d in todo])
+    touts = core.run_stateless(core.RUNNER, "typing", ["(%s %s)" % (d["prog"], d["tenv"]) for _, d in todo])
+    for (p, d), ty in zip(todo, touts):
+        # the typing discipline (Model/Typing.v): every accepted program whose tags are variable-free passes wt_progb
+        if ty is None or ty == "SKIPPED":
+            continue
+        if ty in ("(1 1 1 1)", "(1 0 1 1)"):
+            # the conclusion of C01_typed_programs_panic_only_at_known_casts, observed on the code itself
+            k = kind_of(d["result"])
+            if k.startswith("panic_") and k not in ("panic_cast_content", "panic_cast_object", "panic_cast_uri", "panic_cast_relation"):
+                ctx.violation("a well-typed program panics in the evaluator outside the four casts of the known findings (%s)" % k,
+                              {"mods": p["mods"], "main": p["main"]}, "a document, a located error or a known cast panic", k, extra={"layer": "eval"})
+        if ty == "(1 1 1 1)":
+            ctx.count(label + "_well_typed")
+        elif ty == "(1 0 1 1)":
+            ctx.count(label + "_well_typed_unused_generic_declarations")
+        elif ty.startswith("(1 ") and ty.endswith(" 0 0)"):
+            ctx.count(label + "_same_reference_name_with_two_tags_K5_K21")
+        elif ty == "(1 0 0 1)":
+            ctx.count(label + "_uses_declaration_with_tag_variable")
+        else:
+            ctx.broken.append("typing tie: an accepted program with variable-free tags does not pass wt_progb (%s): %s" %
+                              (ty[:40], json.dumps({"mods": p["mods"], "main": p["main"]})[:1500]))
+            ctx.count(label + "_typing_disagree")
     done = []
     for (p, d), m, lx in zip(todo, mouts, louts):
         ctx.cov["evaluations"] += 1
